@@ -94,6 +94,7 @@ def r17b(run):
                     hc = [c for c in helper_calls if c.func.attr == g.name]
                     hn = [n2 for n2, c2 in fa.all_calls() if any(c2 is c for c in hc)]
                     add.append(bool(hn) and all(any(unparse(a) == "resolved" and p for a, p in fa.facts.atoms_at(n2))
+                                                and all(unparse(a) == "resolved" for a, p in fa.facts.atoms_at(n2))
                                                 for n2 in hn))
     run.check("R17b", f, "the addition type is re-resolved too (whenever something was resolved)", bool(add) and all(add),
               construct="addition type not re-resolved",
@@ -255,11 +256,17 @@ def r17e(run):
     g = run.repo.cls("utype.parser.cls", "ClassParser").methods.get("globals")
     if g is None:
         raise AnalysisError("ClassParser.globals not found")
-    ok = any(isinstance(n, ast.Assign) and isinstance(n.targets[0], ast.Subscript) and unparse(n.value) == "self.obj"
-             for n in walk_shallow(g.node))
-    run.check("R17e", g, "a class can always resolve its own name (self-reference, also in local scope)", ok,
-              construct="own name not injected", message="ClassParser.globals does not inject the class under its own name",
-              necessity="self-referencing local classes never resolve")
+    gfa = analysis(g)
+    inj = [n for n in gfa.cfg.nodes if n.kind == "stmt" and isinstance(n.ast, ast.Assign)
+           and isinstance(n.ast.targets[0], ast.Subscript) and unparse(n.ast.value) == "self.obj"]
+    rets = [n for n in gfa.cfg.nodes if n.kind == "stmt" and isinstance(n.ast, ast.Return) and gfa.cfg.is_live(n)]
+    ok = bool(inj) and all(any(gfa.cfg.dominates(i, r) for i in inj) for r in rets) and all(
+        isinstance(r.ast.value, ast.Name) and unparse(inj[0].ast.targets[0].value) == r.ast.value.id for r in rets)
+    run.check("R17e", g, "a class can always resolve its own name (every namespace handed out has it injected)", ok,
+              construct="own name not injected", message="ClassParser.globals can return a namespace without the class "
+              "injected under its own name (or injects into another mapping than the one returned)",
+              necessity="a self-reference resolves to whatever the module binds under that name: nothing for a class "
+                        "declared inside another class body (NameError), an older class of the same name otherwise")
     c0 = run.repo.func("utype.parser.base", "BaseParser.__call__")
     calls = [c for c in walk_shallow(c0.node) if isinstance(c, ast.Call) and call_attr(c) == "resolve_forward_refs"]
     ok = bool(calls) and all(isinstance(kwarg(c, "ignore_errors"), ast.Constant) and kwarg(c, "ignore_errors").value is False
@@ -297,8 +304,32 @@ def r17f(run):
                             "Field(le=20)` the last rewrite wins and both fields lose / swap their constraints", node=c)
 
 
+def r17g(run):
+    """the evaluation of a reference passes the caller's namespaces through unchanged (typing only re-evaluates an
+    already evaluated reference when localns is not globalns)"""
+    m = run.repo.module("utype.utils.compat")
+    fs = [f for f in m.functions.values() if f.name == "evaluate_forward_ref"]
+    run.floor("R17g", "definitions of evaluate_forward_ref", len(fs), 1)
+    for f in fs:
+        fa = analysis(f)
+        if len(f.params) < 3:
+            raise AnalysisError("evaluate_forward_ref does not take (ref, globalns, localns)")
+        g_, l_ = f.params[1], f.params[2]
+        calls = [(n, c) for n, c in fa.all_calls() if call_attr(c) in ("_eval_type", "_evaluate", "evaluate_forward_ref")]
+        run.floor("R17g", "typing evaluation calls", len(calls), 1)
+        for n, c in calls:
+            names = [a.id for a in c.args if isinstance(a, ast.Name)]
+            ok = g_ in names and l_ in names and fa.rd.is_param_only(n, g_) and fa.rd.is_param_only(n, l_)
+            run.check("R17g", f, "the namespaces reach typing's evaluation unchanged", ok,
+                      construct="namespace rewritten before evaluation",
+                      message=f"evaluate_forward_ref: `{unparse(c)[:60]}` does not receive the caller's `{g_}` / `{l_}` as given",
+                      necessity="with localns aliased to globalns an already evaluated ForwardRef keeps its cached value: "
+                                "List['Item'] is one shared object in every module that spells it, so the second module's "
+                                "class parses its entries with the first module's Item", node=c)
+
+
 def check(run):
-    run.rules_run += ["R17a", "R17b", "R17c", "R17d", "R17e", "R17f"]
+    run.rules_run += ["R17a", "R17b", "R17c", "R17d", "R17e", "R17f", "R17g"]
     run.explain("C17 (resolution-before-use; equivalence with the direct declaration is value-level and undecided): "
                 "(R17a) resolve_forward_refs unconditionally dominates parse_data / get_params at all five entries; "
                 "(R17b) after a resolution every field (input and output type), the addition type, *args and return "
@@ -312,3 +343,4 @@ def check(run):
     r17d(run)
     r17e(run)
     r17f(run)
+    r17g(run)
